@@ -46,6 +46,7 @@ def faults_for(length):
     for p in prefixes:
         out.append({"mode": "kill-write", "prefix": p})
         out.append({"mode": "raise-write", "prefix": p, "error": "nospace"})
+    out.append({"mode": "short-oswrite", "prefix": max(1, length // 2)})
     return out
 
 
@@ -69,20 +70,20 @@ def run_case(run, drv, case_seed, pool):
         reads = [os.path.basename(p) for p in tr.reads]
         case = {"case_seed": case_seed, "version": m["version"], "req": req}
         drv.ask(f"ops edit {hx(b'good.torrent')} 1", ("ops", case, (reads, trace)))
-        link = rng.choice(["plain", "plain", "symlink", "hardlink"])
+        link = rng.choice(["plain", "plain", "symlink", "hardlink", "bare-relative"])
         case["link"] = link
         jobs = []
         specs = faults_for(len(new))
         specs += [{"mode": "none", "req": r} for r in UNENCODABLE]
         for i, f in enumerate(specs):
             path = os.path.join(box, f"f{i}.torrent")
-            if link == "plain":
+            if link in ("plain", "bare-relative"):
                 shutil.copy(m["path"], path)
             else:
                 real = os.path.join(box, f"real{i}.torrent")
                 shutil.copy(m["path"], real)
                 (os.symlink if link == "symlink" else os.link)(real, path)
-            spec = dict(f, metafile=path, req=f.get("req", req))
+            spec = dict(f, metafile=path, req=f.get("req", req), relative=(link == "bare-relative"))
             if "req" in f:
                 spec["req"] = {k: (None if v is object else v) for k, v in f["req"].items()} \
                     if False else _jsonable(f["req"])
